@@ -18,6 +18,8 @@ THEOREMS = [
     "Spowtd.civil_days_roundtrip",
     "Spowtd.civilFromDays_valid",
     "Spowtd.epoch_day_zero",
+    "Spowtd.parseIso_renderIso",
+    "Spowtd.renderIso_injective",
 ]
 TRUSTED_BASE = [
     "Lean 4.33 kernel; axioms propext, Classical.choice, Quot.sound only (audited per theorem on every run)",
@@ -118,11 +120,17 @@ def timestamp_stream(ctx, zones, n_uniform, per_transition):
         elif layout == "shuffled":
             ctx.rng.shuffle(order)
         ctx.count("files_" + layout.replace(" ", "_"))
+        batch_err = None
         try:
             batch = [r[0] for r in lm.generate_timestamped_rows([[texts[i], "1.0"] for i in order], tz)]
-            batch = dict(zip(order, batch)) if len(batch) == len(order) else None
-        except Exception:  # noqa
-            batch = None
+            if len(batch) != len(order):
+                batch_err = "%d rows in, %d rows out" % (len(order), len(batch))
+                batch = None
+            else:
+                batch = dict(zip(order, batch))
+        except Exception as e:  # noqa
+            batch, batch_err = None, "%s: %s" % (type(e).__name__, e)
+        single_errors = 0
         for i, ((l, near), text, m) in enumerate(zip(cases, texts, model)):
             try:
                 if batch is not None:
@@ -133,6 +141,7 @@ def timestamp_stream(ctx, zones, n_uniform, per_transition):
                 err = None
             except Exception as e:  # noqa
                 got, err = None, "%s: %s" % (type(e).__name__, e)
+                single_errors += 1
             ctx.case((name, text), near)
             if m is None or m["local"] != l or m["render"] != text:
                 ctx.obligation("model parseIso/renderIso round trip on generated texts", False)
@@ -157,6 +166,14 @@ def timestamp_stream(ctx, zones, n_uniform, per_transition):
                     "input": inp, "impl": got if err is None else err, "model": cands,
                     "oracle": {"name": "c11Holds", "result": False,
                                "witness": {"zone": name, "text": text, "stored": got, "stored_renders_as": rendered}}})
+        if batch_err is not None and single_errors == 0:
+            # every row converts on its own, the rows of one file together do not
+            ctx.violation("impl-violation", "c11Holds", {
+                "input": {"function": "load.generate_timestamped_rows", "zone": name, "rows_of_the_call": [texts[k] for k in order],
+                          "layout": layout},
+                "impl": batch_err, "oracle": {"name": "c11Holds", "result": False,
+                                              "witness": {"why": "the rows of one file converted together raise or change in number",
+                                                          "zone": name, "layout": layout, "error": batch_err}}})
 
 
 BAD_TEXTS = ["2013-02-30 00:00:00", "2013-13-01 00:00:00", "2013-01-01 24:00:00", "2013-01-01 00:60:00",
@@ -227,6 +244,21 @@ def refusal_stream(ctx, n):
                 ets = {e for e, _ in tr.et}
                 if any(g not in ets for g in core + [core[-1] + dt]):
                     must_refuse = "evapotranspiration missing for a grid step"
+        if must_refuse and mal != "populated" and io != "ok" and i % 5 in (0, 1) and i < (20 if ctx.tier == "quick" else 400):
+            # the same refusal when the interpreter runs optimised (`python -O`, PYTHONOPTIMIZE=1 set site-wide):
+            # validation must not live in assert statements
+            st, tabs = L.run_load_subprocess(ctx, tr, {"PYTHONOPTIMIZE": "1"})
+            ctx.case(("refusal-O", mal, tr.describe()), True)
+            ctx.count("refusals_repeated_under_python_O")
+            ob_o = "malformed input is refused under `python -O` as well"
+            ctx.obligation(ob_o, st[0] != "ok")
+            if st[0] == "ok":
+                ctx.violation("impl-violation", "c11Refuses", {
+                    "input": dict(inp, environment={"PYTHONOPTIMIZE": "1"}), "impl": list(st),
+                    "oracle": {"name": "c11Refuses", "result": False,
+                               "witness": {"accepted": must_refuse, "interpreter": "python -O",
+                                           "rows": {k: (len(v) if v is not None else None) for k, v in tabs.items()}}}})
+                continue
         if must_refuse and io == "ok":
             ctx.obligation(ob, False)
             ctx.violation("impl-violation", "c11Refuses", {
@@ -266,7 +298,7 @@ def cli_zone_stream(ctx, zones):
                                   [(u, float(i)) for i, u in enumerate(eps)], fmt=local)
         db = ctx.scratch("z.sqlite3")
         r = cli.load(db, files, name)
-        d = cli.dump(db, ["rainfall_intensity_staging", "water_level_staging"])
+        d = cli.dump(db, ["rainfall_intensity_staging", "water_level_staging", "evapotranspiration_staging"])
         import os
         for p in list(files) + [db]:
             os.path.exists(p) and os.remove(p)
@@ -275,15 +307,19 @@ def cli_zone_stream(ctx, zones):
             ctx.obligation(ob, False)
             ctx.corr_break(ob, {"input": {"zone": name, "texts": texts}, "impl": list(r)})
             continue
-        model = ctx.driver.call("timestamp", {"zone": table, "texts": texts[:n]})
-        stored = [row[0] for row in d["rainfall_intensity_staging"]]
-        ok = len(stored) == n and all(m is not None and s in m["utc"] for s, m in zip(stored, model))
-        ctx.obligation(ob, ok)
-        if not ok:
-            ctx.violation("impl-violation", "c11Holds", {
-                "input": {"argv": "load DB ... --timezone %s" % name, "texts": texts[:n]}, "impl": stored,
-                "model": [m and m["utc"] for m in model],
-                "oracle": {"name": "c11Holds", "result": False, "witness": {"zone": name, "first_text": texts[0], "stored": stored[:1]}}})
+        model = ctx.driver.call("timestamp", {"zone": table, "texts": texts})
+        # each of the three files is converted with the zone given on the command line
+        for tab, count in (("rainfall_intensity_staging", n), ("water_level_staging", n), ("evapotranspiration_staging", n + 2)):
+            stored = [row[0] for row in (d.get(tab) or [])] if not isinstance(d.get(tab), str) else []
+            ok = len(stored) == count and all(m is not None and s_ in m["utc"] for s_, m in zip(stored, model[:count]))
+            ctx.obligation(ob, ok)
+            if not ok:
+                ctx.violation("impl-violation", "c11Holds", {
+                    "input": {"argv": "load DB ... --timezone %s" % name, "texts": texts[:count], "table": tab}, "impl": stored,
+                    "model": [m and m["utc"] for m in model[:count]],
+                    "oracle": {"name": "c11Holds", "result": False,
+                               "witness": {"zone": name, "table": tab, "first_text": texts[0], "stored": stored[:1], "rows": len(stored)}}})
+                break
 
 
 def run(ctx):
